@@ -72,7 +72,7 @@ def gen_workload(rng, allow_rdflib_graphs_gen=False):
 
 
 def generate(rng, run, tier):
-    if run % 400 == 399:
+    if run % 400 == 397:      # (397: not one of the runs that go to a python -O / mypyc / pure-Python-protobuf child)
         k = 30 if tier == "quick" else 60
         return {"mode": "subproc", "workloads": [dict(gen_workload(rng, True), kind="ser") for _ in range(k)]}
     mode = "coop" if rng.random() < 0.7 else "threads"
@@ -401,7 +401,12 @@ def subproc_side(plan, sim):
             procs.append((hs, order, subprocess.Popen([sys.executable, "-B", "-c", CHILD, here, pf, order], env=env,
                                                       stdout=subprocess.PIPE, stderr=subprocess.PIPE, text=True)))
         for hs, order, p in procs:
-            so, se = p.communicate(timeout=300)
+            try:
+                so, se = p.communicate(timeout=900)
+            except subprocess.TimeoutExpired:
+                for _, _, q in procs:
+                    q.kill()
+                raise HarnessError(f"hash-seed child {hs} did not finish within 900 s") from None
             if p.returncode != 0:
                 raise HarnessError(f"hash-seed child {hs} failed: {se[-800:]}")
             outs[(hs, order)] = json.loads(so.strip().splitlines()[-1])
